@@ -36,7 +36,88 @@ import (
 	"github.com/prometheus/client_golang/prometheus"
 )
 
-const nProfiles = 4
+// nProfiles clients (0 .. nProfiles-1) have a profile of their own; the others
+// are served by the default filtering group.  The first nGoodProfiles have the
+// four blocking modes and TTLs 10, 20, 30, 40; the rest are the boundary and the
+// fault classes of the per-profile message constructor (ratelimitmw builds it for
+// every request of a recognised device): see profSpecs.
+const (
+	nGoodProfiles = 4
+	nProfiles     = 7
+)
+
+// serverTTL is the filtered-response TTL of the constructor of the server (its
+// blocking mode is NXDOMAIN): what clients without a profile get, and clients
+// whose profile's constructor cannot be built.
+const serverTTL = 7
+
+// profSpec is the message-constructor configuration of a profile as the profile
+// database delivers it.
+type profSpec struct {
+	mode dnsmsg.BlockingMode
+	ttl  time.Duration
+	// ctorFails: dnsmsg.NewConstructor rejects the configuration (the error is
+	// only collected); the request is then served with the constructor of the
+	// server, whoever has used the pooled RequestInfo before.
+	ctorFails bool
+}
+
+var profSpecs = [nProfiles]profSpec{
+	{mode: blockingModes[0], ttl: 10 * time.Second},
+	{mode: blockingModes[1], ttl: 20 * time.Second},
+	{mode: blockingModes[2], ttl: 30 * time.Second},
+	{mode: blockingModes[3], ttl: 40 * time.Second},
+	// A negative TTL (a negative protobuf duration of the backend or the file
+	// cache) next to a blocking mode of its own.
+	{mode: &dnsmsg.BlockingModeCustomIP{IPv4: []netip.Addr{netip.MustParseAddr("192.0.2.44")},
+		IPv6: []netip.Addr{netip.MustParseAddr("2001:db8::44")}}, ttl: -50 * time.Second, ctorFails: true},
+	// No blocking mode at all.
+	{mode: nil, ttl: 60 * time.Second, ctorFails: true},
+	// The boundary of the valid configurations: TTL 0.
+	{mode: blockingModes[0], ttl: 0},
+}
+
+// ctorTTL is the filtered-response TTL of the constructor that serves client c.
+func ctorTTL(c int) uint32 {
+	if c >= nProfiles || profSpecs[c].ctorFails {
+		return serverTTL
+	}
+
+	return uint32(profSpecs[c].ttl / time.Second)
+}
+
+// geoFault is the fault class of the GeoIP lookup for the address of client c:
+// 0 a location, 1 the database has no data for it (nil location), 2 the lookup
+// fails (the error is only collected).  RequestInfo.Location is then nil,
+// whatever the previous user of the pooled object has left in it.
+func geoFault(c int) int {
+	switch c {
+	case 2, 9:
+		return 1
+	case 5, 12:
+		return 2
+	}
+
+	return 0
+}
+
+// devErrClient is the client for whose address (and device ID) the profile
+// database fails: the device finder returns a DeviceResultError, the handler
+// returns it and the server answers SERVFAIL.
+const devErrClient = 10
+
+// mayFail: the handler may return an error for q by design of the fixture (the
+// profile database or the upstreams are down for it); the server then builds a
+// SERVFAIL from the request.  Whether it does is not predicted: the request
+// alone decides.
+func mayFail(q sreq) bool {
+	return q.Client == devErrClient || strings.HasPrefix(strings.ToLower(q.Name), "fail.")
+}
+
+// Names for which the scripted filter of every profile fails (the error is
+// collected and the request goes on unfiltered) at the request / response stage.
+func isFilterReqErr(host string) bool  { return strings.HasPrefix(strings.ToLower(host), "flterr.") }
+func isFilterRespErr(host string) bool { return strings.HasPrefix(strings.ToLower(host), "rflterr.") }
 
 // sreq is one request of the stack campaign.
 type sreq struct {
@@ -86,6 +167,30 @@ func (q sreq) msg() *dns.Msg {
 		m.SetEdns0(uint16(1400+int(q.v()%7)*100), q.EDNS == 4)
 		opt := m.IsEdns0()
 		opt.Option = append(opt.Option, q.ecs())
+	case 6:
+		// A malformed client subnet: address bits beyond the prefix.  The
+		// ratelimit middleware answers FORMERR itself (after the access checks
+		// and the rate limiter), with no location error left for the next user
+		// of the pooled RequestInfo.  miekg/dns masks the address of an
+		// EDNS0_SUBNET when packing, so the option travels as raw bytes under
+		// the same code and the message is what a server unpacks.
+		m.SetEdns0(uint16(1400+int(q.v()%7)*100), false)
+		opt := m.IsEdns0()
+		opt.Option = append(opt.Option, &dns.EDNS0_LOCAL{Code: dns.EDNS0SUBNET,
+			Data: []byte{0, 1, 24, 0, 100, byte(64 + q.Client), byte(q.v()), 9}})
+	}
+
+	return m
+}
+
+// parsed is the message of q as a server hands it to its handler.
+func (q sreq) parsed() (m *dns.Msg) {
+	m = q.msg()
+	if q.EDNS == 6 {
+		b, err := m.Pack()
+		hlib.Must(err)
+		m = &dns.Msg{}
+		hlib.Must(m.Unpack(b))
 	}
 
 	return m
@@ -95,6 +200,10 @@ func (q sreq) msg() *dns.Msg {
 func (q sreq) ecs() *dns.EDNS0_SUBNET {
 	if q.EDNS == 5 {
 		return &dns.EDNS0_SUBNET{Code: dns.EDNS0SUBNET, Family: 1, SourceNetmask: 0, Address: net.IP{0, 0, 0, 0}}
+	}
+	if q.EDNS == 6 {
+		return &dns.EDNS0_SUBNET{Code: dns.EDNS0SUBNET, Family: 1, SourceNetmask: 24,
+			Address: net.IP{100, byte(64 + q.Client), byte(q.v()), 9}}
 	}
 	if q.EDNS%2 == 1 {
 		return &dns.EDNS0_SUBNET{Code: dns.EDNS0SUBNET, Family: 1, SourceNetmask: 24,
@@ -323,6 +432,11 @@ type fixture struct {
 	// logPath != "": the production file-system query log writes there.
 	logPath    string
 	logEntries []*querylog.Entry
+	// riSeen: the fields of the RequestInfo of a request (by ID) as its filter
+	// was handed them at the request stage (ctx.go).
+	riSeen map[uint16][]uint32
+	// ipOf is the address of a client.
+	ipOf func(c int) netip.Addr
 	// ecsDep: the upstream tailors the records of half of the names to the
 	// client subnet it is sent (set by the campaigns that compute what a
 	// request gets alone on a stack with the same kind of cache).
@@ -486,9 +600,41 @@ func geoFor(ip netip.Addr) *geoip.Location {
 	return &geoip.Location{Country: geoCountries[h%4], Continent: geoip.ContinentEU, ASN: geoip.ASN(1000 + h%50)}
 }
 
+// errProfileDBDown is what the profile database of the fixture returns for the
+// address and the device ID of client devErrClient.
+var errProfileDBDown = fmt.Errorf("profiledb: looking up the device: backend is down")
+
+// clientOf is the client whose address ip is (-1: none).
+func (f *fixture) clientOf(ip netip.Addr) int {
+	ip = ip.Unmap()
+	for c := 0; c < 64; c++ {
+		if f.ipOf(c) == ip {
+			return c
+		}
+	}
+
+	return -1
+}
+
+// geoData is what the GeoIP database of the fixture has for ip: nothing for the
+// addresses of the clients with a GeoIP fault class, and nothing for one in
+// eight of the other addresses (the client subnets that requests carry).
+func (f *fixture) geoData(ip netip.Addr) *geoip.Location {
+	if c := f.clientOf(ip); c >= 0 {
+		if geoFault(c) != 0 {
+			return nil
+		}
+	} else if b := ip.As16(); nameHash(string(b[:]))%8 == 7 {
+		return nil
+	}
+
+	return geoFor(ip)
+}
+
 // cnameTargets are the names that the CNAME rewrite rule of each profile (the
 // last one: of the default filtering group) points to.
-var cnameTargets = []string{"one.example.", "two.example.", "three.example.org.", "four.test.", "five.test."}
+var cnameTargets = []string{"one.example.", "two.example.", "three.example.org.", "four.test.", "six.test.", "seven.example.",
+	"eight.test.", "five.test."}
 
 // rewriteIP is the address that the rewrite rule of a profile answers with.
 func rewriteIP(profile int) netip.Addr {
@@ -544,11 +690,9 @@ func (f *fixture) identity(ctx context.Context, stage string, profile int, msg *
 		chk("filter.Request.QType", fr.QType, q.Qtype)
 		chk("filter.Request.QClass", fr.QClass, qclass)
 		chk("question name", msg.Question[0].Name, q.Name)
-		// The constructor is the one of the profile: its TTL names it.
-		wantTTL := uint32(7)
-		if q.Client < nProfiles {
-			wantTTL = uint32(10 * (q.Client + 1))
-		}
+		// The constructor is the one of the profile, or the server's when the
+		// profile's cannot be built: its TTL names it.
+		wantTTL := ctorTTL(q.Client)
 		if fr.Messages == nil {
 			bad = append(bad, "no message constructor")
 		} else {
@@ -556,10 +700,24 @@ func (f *fixture) identity(ctx context.Context, stage string, profile int, msg *
 		}
 	}
 	ri := agd.MustRequestInfoFromContext(ctx)
+	if stage == "FilterRequest" {
+		obs := f.riObserved(ri, msg)
+		f.mu.Lock()
+		if f.riSeen == nil {
+			f.riSeen = map[uint16][]uint32{}
+		}
+		f.riSeen[q.ID] = obs
+		f.mu.Unlock()
+	}
 	if o, shared := f.claim(ri, q.ID, stage, hasRespStage); shared {
 		bad = append(bad, fmt.Sprintf("request %+v uses the RequestInfo object that request %d, still in flight, uses", q, o))
 	}
 	chk("RequestInfo.RemoteIP", ri.RemoteIP, clientIP(q.Client))
+	if ri.Messages == nil {
+		bad = append(bad, "RequestInfo without a message constructor")
+	} else {
+		chk("RequestInfo.Messages (filtered-response TTL)", ri.Messages.NewAnswerCNAME(msg, "probe.").Hdr.Ttl, ctorTTL(q.Client))
+	}
 	chk("RequestInfo.Host", ri.Host, host)
 	chk("RequestInfo.QType", ri.QType, q.Qtype)
 	chk("RequestInfo.QClass", ri.QClass, qclass)
@@ -574,10 +732,15 @@ func (f *fixture) identity(ctx context.Context, stage string, profile int, msg *
 	} else if prof != nil {
 		bad = append(bad, fmt.Sprintf("request %+v: anonymous client with profile %s", q, prof.ID))
 	}
-	if ri.Location == nil {
-		bad = append(bad, "no location")
+	if want := f.geoData(f.ipOf(q.Client)); ri.Location == nil || want == nil {
+		if ri.Location != nil {
+			bad = append(bad, fmt.Sprintf("request %+v: RequestInfo.Location is %+v, the GeoIP database has nothing for this client", q,
+				*ri.Location))
+		} else if want != nil {
+			bad = append(bad, "no location")
+		}
 	} else {
-		chk("RequestInfo.Location", *ri.Location, *geoFor(clientIP(q.Client)))
+		chk("RequestInfo.Location", *ri.Location, *want)
 	}
 	if q.EDNS >= 3 {
 		own := q.ecs()
@@ -626,6 +789,7 @@ func newFixtureOpts(cache *dnssvc.CacheConfig, reqs map[uint16]sreq, real *realF
 	if fo.ipOf != nil {
 		ipOf = fo.ipOf
 	}
+	f.ipOf = ipOf
 	if len(logPath) > 0 {
 		f.logPath = logPath[0]
 	}
@@ -642,10 +806,12 @@ func newFixtureOpts(cache *dnssvc.CacheConfig, reqs map[uint16]sreq, real *realF
 		devs[i] = &agd.Device{Auth: &agd.AuthSettings{PasswordHash: agdpasswd.AllowAuthenticator{}},
 			ID: agd.DeviceID(fmt.Sprintf("dev%05d", i)), LinkedIP: ipOf(i), FilteringEnabled: true, Name: devName(i)}
 		profs[i] = &agd.Profile{
-			FilterConfig: conf, Access: access.EmptyProfile{}, BlockingMode: blockingModes[i%len(blockingModes)],
+			FilterConfig: conf, Access: access.EmptyProfile{}, BlockingMode: profSpecs[i].mode,
 			Ratelimiter: agd.GlobalRatelimiter{}, ID: agd.ProfileID(fmt.Sprintf("prof%04d", i)),
-			DeviceIDs: []agd.DeviceID{devs[i].ID}, FilteredResponseTTL: time.Duration(10*(i+1)) * time.Second,
-			FilteringEnabled: true, QueryLogEnabled: true, IPLogEnabled: true,
+			DeviceIDs: []agd.DeviceID{devs[i].ID}, FilteredResponseTTL: profSpecs[i].ttl,
+			// Profiles 2 and 5 do not log the address of the client: the pooled
+			// entry of the file query log must not keep the previous client's.
+			FilteringEnabled: true, QueryLogEnabled: true, IPLogEnabled: i%3 != 2,
 			// The policies for the special domains of the initial middleware
 			// differ between the profiles (anonymous clients: nothing blocked).
 			BlockFirefoxCanary: i%2 == 0, BlockPrivateRelay: i%2 == 1, BlockChromePrefetch: i < 2,
@@ -659,6 +825,11 @@ func newFixtureOpts(cache *dnssvc.CacheConfig, reqs map[uint16]sreq, real *realF
 				return profs[i], devs[i], nil
 			}
 		}
+		if ip == ipOf(devErrClient) {
+			f.count("profiledb.lookup-failed")
+
+			return nil, nil, errProfileDBDown
+		}
 
 		return nil, nil, profiledb.ErrDeviceNotFound
 	}
@@ -668,6 +839,11 @@ func newFixtureOpts(cache *dnssvc.CacheConfig, reqs map[uint16]sreq, real *realF
 			if devs[i].ID == id {
 				return profs[i], devs[i], nil
 			}
+		}
+		if id == agd.DeviceID(fmt.Sprintf("dev%05d", devErrClient)) {
+			f.count("profiledb.lookup-failed")
+
+			return nil, nil, errProfileDBDown
 		}
 
 		return nil, nil, profiledb.ErrDeviceNotFound
@@ -680,9 +856,16 @@ func newFixtureOpts(cache *dnssvc.CacheConfig, reqs map[uint16]sreq, real *realF
 			OnFilterRequest: func(ctx context.Context, req *filter.Request) (filter.Result, error) {
 				if !fo.noIdent {
 					f.hook(f.reqs[req.DNS.Id].Client, "filter-request")
-					f.identity(ctx, "FilterRequest", profile, req.DNS, req.RemoteIP, req.ClientName, req, !strings.HasPrefix(req.Host, "cname."))
+					// No response stage follows a CNAME rewrite, nor a failure of the
+					// upstreams.
+					f.identity(ctx, "FilterRequest", profile, req.DNS, req.RemoteIP, req.ClientName, req,
+						!strings.HasPrefix(req.Host, "cname.") && !strings.HasPrefix(req.Host, "fail."))
 				}
 				switch {
+				case isFilterReqErr(req.Host):
+					f.count("filter.request-stage-error")
+
+					return nil, fmt.Errorf("filtering %q: rule storage is closed", req.Host)
 				case isBlockedFor(profile, req.Host):
 					return &filter.ResultBlocked{List: "verif_list", Rule: rule(req.Host)}, nil
 				case strings.HasPrefix(req.Host, "allow."):
@@ -709,6 +892,11 @@ func newFixtureOpts(cache *dnssvc.CacheConfig, reqs map[uint16]sreq, real *realF
 				if !fo.noIdent {
 					f.hook(f.reqs[resp.DNS.Id].Client, "filter-response")
 					f.identity(ctx, "FilterResponse", profile, resp.DNS, resp.RemoteIP, resp.ClientName, nil, true)
+				}
+				if isFilterRespErr(resp.DNS.Question[0].Name) {
+					f.count("filter.response-stage-error")
+
+					return nil, fmt.Errorf("filtering the response for %q: rule storage is closed", resp.DNS.Question[0].Name)
 				}
 				if q := resp.DNS.Question[0]; strings.HasPrefix(strings.ToLower(q.Name), "rblock.") && profile%2 == 0 {
 					return &filter.ResultBlocked{List: "verif_resp_list", Rule: rule(strings.ToLower(q.Name))}, nil
@@ -757,8 +945,16 @@ func newFixtureOpts(cache *dnssvc.CacheConfig, reqs map[uint16]sreq, real *realF
 		Servers: servers, Messages: msgs, GroupFilterConfig: group, GeoSubnet: geoSubnetFor,
 		GeoData: func(_ string, ip netip.Addr) (*geoip.Location, error) {
 			f.hook(clientOfIP(ip), "geoip")
+			l := f.geoData(ip)
+			if l == nil && geoFault(f.clientOf(ip)) == 2 {
+				f.count("geoip.lookup-failed")
 
-			return geoFor(ip), nil
+				return nil, fmt.Errorf("geoip: looking up %s: database is being replaced", ip)
+			} else if l == nil {
+				f.count("geoip.no-data")
+			}
+
+			return l, nil
 		},
 		// Global access rules and the global rate limiter drop requests for
 		// two names without any response.
@@ -944,12 +1140,18 @@ func (f *fixture) handle(q sreq) (resp *dns.Msg, err error) {
 			err = fmt.Errorf("panic: %v", v)
 		}
 	}()
-	req := q.msg()
+	req := q.parsed()
 	defer f.done(q.ID)
 	out := f.st.Serve(context.Background(), &stack.Req{Server: f.srv, Msg: req,
 		Remote: netip.AddrPortFrom(clientIP(q.Client), 5353), Local: netip.MustParseAddrPort("192.0.2.2:53")})
 	if out.Err != nil {
-		return nil, out.Err
+		if !mayFail(q) {
+			return nil, out.Err
+		}
+		// What ServerBase does with an error of the handler: a SERVFAIL made
+		// from the request, written like any response.
+		f.count("stack.handler-error-answered-with-servfail")
+		out.Resp = (&dns.Msg{}).SetRcode(req, dns.RcodeServerFailure)
 	}
 	if out.Resp != nil {
 		dnsserver.VerifC08Normalize(dnsserver.NetworkUDP, dnsserver.ProtoDNS, req, out.Resp, dns.MaxMsgSize)
@@ -1008,7 +1210,10 @@ func (f *fixture) dispose(resp *dns.Msg) (panicked string) {
 
 func genStackReqs(rng *rand.Rand, nClients, perClient int) (streams [][]sreq) {
 	pool := []string{"blocked.example.", "p0-blocked.example.", "p1-blocked.example.", "p2-blocked.example.",
-		"p3-blocked.example.", "one.example.", "two.example.", "three.example.org.", "four.test.", "five.test.",
+		"p3-blocked.example.", "p4-blocked.example.", "p5-blocked.example.", "p6-blocked.example.", "blocked.example.",
+		// The fault paths whose errors are only collected or answered by the
+		// server: a filter that fails at either stage, upstreams that are down.
+		"flterr.example.", "rflterr.example.", "fail.example.", "one.example.", "two.example.", "three.example.org.", "four.test.", "five.test.",
 		"cname.example.", "cname.example.", "rblock.example.", "allow.example.", "rewrite.example.", "One.Example.",
 		"accessblocked.example.", "ratelimited.example.",
 		// Negative answers with an SOA; the special domains of the initial
@@ -1029,6 +1234,10 @@ func genStackReqs(rng *rand.Rand, nClients, perClient int) (streams [][]sreq) {
 			}
 			if rng.IntN(10) == 0 {
 				q.Chaos, q.Qtype = true, dns.TypeTXT
+			}
+			if rng.IntN(24) == 0 {
+				// A malformed client subnet: FORMERR.
+				q.EDNS = 6
 			}
 			// What a response echoes differs between the requests: the letter
 			// case of the name and the header bits.
@@ -1115,7 +1324,7 @@ func reqTable(streams [][]sreq) map[uint16]sreq {
 }
 
 // heldRound is heldRun on a random interleaving of the streams.
-func heldRound(rng *rand.Rand, r *hlib.Result, streams [][]sreq, want [][]string, wantLog []string,
+func heldRound(rng *rand.Rand, r *hlib.Result, m *hlib.Model, streams [][]sreq, want [][]string, wantLog []string,
 	cache *dnssvc.CacheConfig, cname string) {
 	var order []hidx
 	next := make([]int, len(streams))
@@ -1138,6 +1347,11 @@ func heldRound(rng *rand.Rand, r *hlib.Result, streams [][]sreq, want [][]string
 	r.Count(fmt.Sprintf("stack.held.window=%d", window))
 	viols, f, n := heldRun(streams, want, order, window, cache, cname)
 	r.Evaluations += n
+	inOrder := make([]sreq, 0, len(order))
+	for _, at := range order {
+		inOrder = append(inOrder, streams[at.C][at.K])
+	}
+	ctxCorrespondence(r, m, f, inOrder, map[string]any{"campaign": "stack-held", "cache": cname, "window": window})
 	for _, v := range viols {
 		known := false
 		for _, w := range r.Violations {
@@ -1285,6 +1499,10 @@ func liveRound(r *hlib.Result, mode string, yieldSeed uint64, count bool, stream
 					kind = "rewritten-response"
 				case strings.HasPrefix(host, "nx.") || strings.HasPrefix(host, "nodata."):
 					kind = "negative-answer"
+				case isFilterReqErr(host) || isFilterRespErr(host):
+					kind = "filter-error-collected"
+				case strings.HasPrefix(host, "fail."):
+					kind = "upstream-failure"
 				case strings.HasSuffix(host, ".resolver.arpa.") || strings.HasPrefix(host, "_dns."):
 					kind = "ddr-other"
 					if got[c][k] != "" && strings.Contains(got[c][k], "SVCB") {
@@ -1301,6 +1519,26 @@ func liveRound(r *hlib.Result, mode string, yieldSeed uint64, count bool, stream
 				}
 				if q.EDNS == 5 && count {
 					r.Count("stack.req.declined-client-subnet")
+				}
+				if count {
+					if q.EDNS == 6 {
+						r.Count("stack.req.malformed-client-subnet")
+					}
+					if c < nProfiles && profSpecs[c].ctorFails {
+						r.Count("stack.req.profile-constructor-cannot-be-built")
+						if kind == "blocked" || kind == "blocked-by-response" || kind == "rewritten-response" || kind == "cname-rewrite" {
+							r.Count("stack.req.profile-constructor-cannot-be-built+constructed-response")
+						}
+					}
+					if c < nProfiles && profSpecs[c].ttl == 0 {
+						r.Count("stack.req.profile-ttl-zero")
+					}
+					if geoFault(c) != 0 {
+						r.Count(fmt.Sprintf("stack.req.geoip-fault-class=%d", geoFault(c)))
+					}
+					if c == devErrClient {
+						r.Count("stack.req.profiledb-error")
+					}
 				}
 				if q.Chaos {
 					kind += "+debug"
@@ -1406,21 +1644,47 @@ func overlapCampaign(o *hlib.Opts, r *hlib.Result) {
 	hists := []hist{
 		{"none", nil},
 		{"dropped-by-access", []sreq{mk(2, "accessblocked.example.", dns.TypeA, 1, 1)}},
-		{"dropped-by-access-anonymous", []sreq{mk(7, "accessblocked.example.", dns.TypeA, 0, 1), mk(2, "accessblocked.example.", dns.TypeAAAA, 3, 2)}},
+		{"dropped-by-access-anonymous", []sreq{mk(8, "accessblocked.example.", dns.TypeA, 0, 1), mk(2, "accessblocked.example.", dns.TypeAAAA, 3, 2)}},
 		{"dropped-by-ratelimit", []sreq{mk(2, "ratelimited.example.", dns.TypeA, 1, 1)}},
 		{"blocked", []sreq{mk(2, "blocked.example.", dns.TypeA, 2, 1)}},
 		{"cname-rewrite", []sreq{mk(3, "cname.example.", dns.TypeA, 0, 1)}},
 		{"cache-hit", []sreq{mk(2, "one.example.", dns.TypeA, 1, 1), mk(3, "one.example.", dns.TypeA, 1, 2)}},
 		{"debug", []sreq{{Client: 2, Name: "two.example.", Qtype: dns.TypeTXT, Chaos: true, EDNS: 1, ID: 1}}},
+		// Histories that leave a pooled context behind whose fields the next
+		// request must not inherit on ITS fault path: a profile with a blocking
+		// mode and TTL of its own (then a profile whose constructor cannot be
+		// built), a client with a location and a subnet (then clients the GeoIP
+		// database knows nothing about), and the fault paths themselves.
+		{"blocked-custom-mode", []sreq{mk(3, "blocked.example.", dns.TypeA, 3, 1)}},
+		{"constructor-fault", []sreq{mk(4, "blocked.example.", dns.TypeA, 0, 1), mk(5, "rewrite.example.", dns.TypeA, 1, 2)}},
+		{"faults", []sreq{mk(1, "one.example.", dns.TypeA, 6, 1), mk(devErrClient, "one.example.", dns.TypeA, 0, 2),
+			mk(0, "flterr.example.", dns.TypeA, 1, 3), mk(3, "rflterr.example.", dns.TypeA, 4, 4), mk(6, "fail.example.", dns.TypeA, 0, 5)}},
 	}
 	pairs := [][2]sreq{
 		{mk(0, "p0-blocked.example.", dns.TypeA, 1, 100), mk(1, "p0-blocked.example.", dns.TypeA, 1, 101)},
-		{mk(1, "one.example.", dns.TypeA, 0, 100), mk(5, "one.example.", dns.TypeA, 3, 101)},
-		{mk(5, "blocked.example.", dns.TypeAAAA, 2, 100), mk(3, "blocked.example.", dns.TypeAAAA, 2, 101)},
-		{mk(6, "two.example.", dns.TypeHTTPS, 4, 100), mk(0, "three.example.org.", dns.TypeHTTPS, 0, 101)},
-		{mk(3, "cname.example.", dns.TypeA, 1, 100), mk(9, "five.test.", dns.TypeTXT, 1, 101)},
-		{{Client: 1, Name: "one.example.", Qtype: dns.TypeTXT, Chaos: true, EDNS: 1, ID: 100}, mk(4, "rewrite.example.", dns.TypeA, 0, 101)},
+		{mk(1, "one.example.", dns.TypeA, 0, 100), mk(8, "one.example.", dns.TypeA, 3, 101)},
+		{mk(8, "blocked.example.", dns.TypeAAAA, 2, 100), mk(3, "blocked.example.", dns.TypeAAAA, 2, 101)},
+		{mk(11, "two.example.", dns.TypeHTTPS, 4, 100), mk(0, "three.example.org.", dns.TypeHTTPS, 0, 101)},
+		{mk(3, "cname.example.", dns.TypeA, 1, 100), mk(13, "five.test.", dns.TypeTXT, 1, 101)},
+		{{Client: 1, Name: "one.example.", Qtype: dns.TypeTXT, Chaos: true, EDNS: 1, ID: 100}, mk(7, "rewrite.example.", dns.TypeA, 0, 101)},
 		{mk(2, "rblock.example.", dns.TypeA, 3, 100), mk(1, "rblock.example.", dns.TypeA, 4, 101)},
+		// A profile whose constructor cannot be built (negative TTL; no blocking
+		// mode) next to profiles with blocking modes and TTLs of their own: every
+		// kind of response that a constructor makes.
+		{mk(4, "blocked.example.", dns.TypeA, 1, 100), mk(3, "blocked.example.", dns.TypeA, 1, 101)},
+		{mk(5, "p5-blocked.example.", dns.TypeAAAA, 0, 100), mk(0, "blocked.example.", dns.TypeAAAA, 3, 101)},
+		{mk(5, "rewrite.example.", dns.TypeA, 1, 100), mk(6, "rewrite.example.", dns.TypeA, 1, 101)},
+		{mk(4, "cname.example.", dns.TypeA, 0, 100), mk(2, "cname.example.", dns.TypeA, 0, 101)},
+		{mk(4, "rblock.example.", dns.TypeA, 1, 100), mk(6, "rblock.example.", dns.TypeA, 1, 101)},
+		// Clients without a location (no data; lookup failed) next to clients
+		// with one; a malformed client subnet next to a well-formed one; the
+		// profile database down for one client; filters that fail.
+		{mk(2, "one.example.", dns.TypeA, 0, 100), mk(1, "one.example.", dns.TypeA, 3, 101)},
+		{{Client: 12, Name: "two.example.", Qtype: dns.TypeTXT, Chaos: true, EDNS: 1, ID: 100}, mk(0, "two.example.", dns.TypeTXT, 4, 101)},
+		{mk(3, "one.example.", dns.TypeA, 6, 100), mk(8, "one.example.", dns.TypeA, 3, 101)},
+		{mk(devErrClient, "blocked.example.", dns.TypeA, 1, 100), mk(1, "blocked.example.", dns.TypeA, 1, 101)},
+		{mk(1, "flterr.example.", dns.TypeA, 1, 100), mk(0, "blocked.example.", dns.TypeA, 1, 101)},
+		{mk(2, "rflterr.example.", dns.TypeA, 1, 100), mk(0, "rblock.example.", dns.TypeA, 1, 101)},
 	}
 	caches := []struct {
 		name string
@@ -1513,7 +1777,7 @@ func overlapCampaign(o *hlib.Opts, r *hlib.Result) {
 	}
 }
 
-func stackCampaign(o *hlib.Opts, r *hlib.Result) {
+func stackCampaign(o *hlib.Opts, r *hlib.Result, m *hlib.Model) {
 	rng := o.Rand("stack")
 	rounds := 60
 	if o.Thorough() {
@@ -1568,7 +1832,7 @@ func stackCampaign(o *hlib.Opts, r *hlib.Result) {
 		r.Count("stack.mode=" + mode)
 		nontrivial := liveRound(r, mode, 0, true, streams, want, aloneLog, cache, cname)
 		liveRound(r, "cooperative", 1+rng.Uint64()>>1, false, streams, want, aloneLog, cache, cname)
-		heldRound(rng, r, streams, want, wantLog, cache, cname)
+		heldRound(rng, r, m, streams, want, wantLog, cache, cname)
 
 		var canonCase []string
 		for _, s := range streams {
